@@ -340,6 +340,7 @@ func tryReplay(w *World, o *Obligation, cfg RunConfig) (bool, string) {
 		queries = append(queries, m.queries...)
 	}
 	var obs []*obsVal
+	observedHeaps := map[string]bool{}
 	if o.Kind == "ensures" {
 		sig := fn.Signature
 		for i := 0; i < sig.Results().Len() && i < len(rs.results); i++ {
@@ -357,6 +358,10 @@ func tryReplay(w *World, o *Obligation, cfg RunConfig) (bool, string) {
 				if ov != nil {
 					obs = append(obs, ov)
 					queries = append(queries, ov.queries...)
+					observedHeaps[x.heapName(pt.Elem())] = true
+					if sl, ok := pt.Elem().Underlying().(*types.Slice); ok {
+						observedHeaps[x.heapName(sl.Elem())] = true
+					}
 				}
 			}
 		}
@@ -462,6 +467,21 @@ func TestVerifReplay(t *testing.T) {
 	switch o.Kind {
 	case "ensures":
 		confirmed = len(got) > 0 && got[len(got)-1] == "REPLAY done"
+		// a postcondition over memory the function writes but the harness does not
+		// observe cannot be confirmed by comparing the observed outputs
+		if mods := x.funcMods(fn); confirmed {
+			for h := range mods.heaps {
+				if h == "heap_any" || strings.HasPrefix(h, "heap__") && strings.Contains(h, "interface") || observedHeaps[h] {
+					continue
+				}
+				confirmed = false
+				b.WriteString("not confirmable: the function writes " + h + ", which the replay harness does not observe\n")
+				break
+			}
+			if mods.allHeaps {
+				confirmed = false
+			}
+		}
 		for _, wl := range want {
 			if !contains(got, wl) {
 				confirmed = false
